@@ -139,6 +139,7 @@ type World struct {
 	PressureHints []int64
 	isMain        bool
 	inPressure    bool
+	lastStore     *storeState // store of the latest lock / access event (node marks carry no store)
 	files         map[string]*fileShadow
 	wals          map[any]*walHandle
 
@@ -146,19 +147,20 @@ type World struct {
 	cur     *storeState // flusher that holds the baton (nil = session/driver)
 
 	// statement context
-	inStmt       bool
-	stmtIdx      int
-	stmtKind     string
-	evIdx        int
-	walEvIdx     int
-	flushIdx     int
-	directives   []Directive
-	stmtChanged  bool
-	stmtLogged   bool
-	stmtRecOps   []byte // op byte of every log record the statement wrote so far
-	quietSuspect string // a flusher wrote to the data file after the statement's first change, lock released
-	inRecovery   bool
-	sessLocks    int // locks the session task holds (any store)
+	inStmt        bool
+	stmtIdx       int
+	stmtKind      string
+	evIdx         int
+	walEvIdx      int
+	flushIdx      int
+	directives    []Directive
+	stmtChanged   bool
+	stmtChangedIn map[*storeState]bool // ... and in which stores (a flusher of another store is no concern)
+	stmtLogged    bool
+	stmtRecOps    []byte // op byte of every log record the statement wrote so far
+	quietSuspect  string // a flusher wrote to the data file after the statement's first change, lock released
+	inRecovery    bool
+	sessLocks     int // locks the session task holds (any store)
 
 	// image capture
 	capReqs  []capReq
@@ -428,6 +430,9 @@ func (w *World) hookStoreOpened(fs *storage.VerifStore, path string, auto bool) 
 		fs.VerifSetCacheCap(w.Knobs.CacheCap)
 	}
 	w.stores = append(w.stores, st)
+	if w.cur == nil {
+		w.lastStore = st
+	}
 	w.byFS[fs] = st
 	w.byCache[fs.VerifCache()] = st
 	if w.mon.LRU {
@@ -568,6 +573,9 @@ func (w *World) hookLock(fs *storage.VerifStore, op int) {
 		return
 	}
 	w.h(4, uint64(st.id), uint64(op), b2u(w.cur != nil))
+	if w.cur == nil {
+		w.lastStore = st
+	}
 	if w.cur == nil && (op == storage.VerifLockWantShared || op == storage.VerifLockWantExcl) {
 		// the waiting flusher is first in line for the lock
 		w.settle(st)
@@ -677,6 +685,9 @@ func (w *World) hookAccess(fs *storage.VerifStore, kind int, off uint64) {
 		return
 	}
 	w.h(6, uint64(st.id), uint64(kind), off)
+	if w.cur == nil {
+		w.lastStore = st
+	}
 	change := kind == storage.VerifAccAppend || kind == storage.VerifAccIncrLastKey || kind == storage.VerifAccIncrLSN || kind == storage.VerifAccSetPageTableRoot
 	if w.mon.Lock && st.auto && !w.inRecovery && !w.holdsLock(st, false) {
 		w.raise("C13", "O-lock", fmt.Sprintf("store access kind %d at offset %d with no lock held (statement %s)", kind, off, w.stmtKind),
@@ -685,6 +696,7 @@ func (w *World) hookAccess(fs *storage.VerifStore, kind int, off uint64) {
 	if change && w.cur == nil && w.inStmt {
 		w.changeAfterSuspect()
 		w.stmtChanged = true
+		w.noteChangeIn(st)
 	}
 	w.yieldPoint()
 }
@@ -730,8 +742,11 @@ func (w *World) hookNodeMark(n *storage.VerifNode, dirty bool) {
 		if w.cur == nil && w.inStmt {
 			w.changeAfterSuspect()
 			w.stmtChanged = true
+			w.noteChangeIn(w.lastStore)
 		}
-		if w.mon.Lock && !w.inRecovery && w.cur == nil && w.inStmt && w.sessLocks == 0 && w.anyAuto() {
+		// (a node of a store that has no flusher needs no lock: CREATE DATABASE
+		// builds the new catalog while another database's flusher is alive)
+		if w.mon.Lock && !w.inRecovery && w.cur == nil && w.inStmt && w.sessLocks == 0 && w.anyAuto() && (w.lastStore == nil || w.lastStore.auto) {
 			w.raise("C13", "O-lock", fmt.Sprintf("page %d marked dirty with no lock held (statement %s)", n.VerifOffset(), w.stmtKind),
 				map[string]string{"stmt": w.stmtKind, "access": "markDirty"})
 		}
@@ -790,11 +805,21 @@ func (w *World) hookPageWrite(fs *storage.VerifStore, n *storage.VerifNode, b []
 // log records that describe them). A flush after the statement released its
 // lock for good (CREATE TABLE before its own flush, a refused statement on its
 // way out) is a statement boundary and is fine.
+func (w *World) noteChangeIn(st *storeState) {
+	if st == nil {
+		return
+	}
+	if w.stmtChangedIn == nil {
+		w.stmtChangedIn = map[*storeState]bool{}
+	}
+	w.stmtChangedIn[st] = true
+}
+
 func (w *World) checkQuiet(st *storeState, what string) {
 	if !w.mon.Quiet || w.inRecovery {
 		return
 	}
-	if w.inStmt && w.stmtChanged && !w.stmtLogged && w.cur != nil && w.Sess != nil && w.Sess.RelationService != nil && w.Sess.RelationService.VerifStore() == st.fs {
+	if w.inStmt && w.stmtChanged && w.stmtChangedIn[st] && !w.stmtLogged && w.cur != nil && w.Sess != nil && w.Sess.RelationService != nil && w.Sess.RelationService.VerifStore() == st.fs {
 		if st.readers > 0 {
 			w.raise("C13", "O-quiet", fmt.Sprintf("%s write to the data file by the flusher while a %s statement that already changed pages still holds the store lock", what, w.stmtKind),
 				map[string]string{"stmt": w.stmtKind, "what": what, "when": "lock-held"})
@@ -1023,6 +1048,7 @@ func (w *World) BeginStmt(idx int, kind string, dirs []Directive) {
 	w.walEvIdx = 0
 	w.directives = dirs
 	w.stmtChanged = false
+	w.stmtChangedIn = nil
 	w.stmtLogged = false
 	w.stmtRecOps = w.stmtRecOps[:0]
 	w.quietSuspect = ""
